@@ -31,6 +31,7 @@ ASSUMPTIONS = [
     "clauses 3-4 are proved for exact rational arithmetic; for binary64 they are measured: each case is evaluated in both instances "
     "and against CPython, and the oracle accepts an answer that is exact for an image size within a relative 2^-40 of the given one",
     "CPython float *, /, int->float conversion and math.ceil are IEEE binary64 round-to-nearest-even = Coq PrimFloat (compared on every case)",
+    "every int converted to float is < 2^53 in the generated cases (Model/CellSizeFloat.f_of_Z is exact there)",
     "all file descriptors of the terminal object are the same tty or no tty (one window size per call)",
 ]
 TRUSTED = [
